@@ -948,9 +948,11 @@ def build_problem(rec):
     P.X, P.xs, P.wx = X, xs, wx
     # ---- blocks
     Ls, Lmats, gs_odl, gs_ref, ys, wys = [], [], [], [], [], []
+    ls_odl, l_lips = [], []
     data_block = None
     for bi, blk in enumerate(fam['blocks']):
-        gk, par, lk, mode = blk
+        gk, par, lk, mode = blk[:4]
+        lc = blk[4] if len(blk) > 4 else None      # l_i = lc * ||.||^2 (infimal convolution)
         Lop = _mk_L(lk, X, xname)
         if adjoint_defect(Lop) > 1e-12:
             raise NotImplementedError('adjoint of %s inexact' % lk)
@@ -995,6 +997,12 @@ def build_problem(rec):
             godl = _godl(gk, par, Y)
             if np.any(b):
                 godl = godl.translated(S.from_flat(Y, b))
+        if lc is not None:
+            # the term of the problem is (g_i box l_i), l_i = lc ||.||^2: smooth, its gradient at
+            # L x* is the dual solution; the solver gets g_i and l_i separately
+            tref = R.Envelope(tref, lc)
+            ls_odl.append(lc * odl.solvers.L2NormSquared(Y))
+            l_lips.append(1.0 / (2 * lc))          # Lipschitz constant of grad l_i^*
         y = tref.pick(z, theta)
         Ls.append(Lop), Lmats.append(A), wys.append(wy)
         gs_odl.append(godl), gs_ref.append(tref), ys.append(y)
@@ -1049,7 +1057,7 @@ def build_problem(rec):
             if np.any(c) else f0_odl
     elif absorb == 'g_data':
         bi = data_block
-        gk, par, lk, mode = fam['blocks'][bi]
+        gk, par, lk, mode = fam['blocks'][bi][:4]
         assert gk == 'l2sq'
         Aadj = R.adjoint_matrix(Lmats[bi], wx, wys[bi])
         y = np.linalg.solve(Aadj, -(s + q_blocks(skip=bi)))
@@ -1082,6 +1090,8 @@ def build_problem(rec):
 
     P.f, P.h, P.g_list, P.L_list = f_odl, h_odl, gs_odl, Ls
     P.Lmats, P.wys, P.ys_list = Lmats, wys, ys
+    assert len(ls_odl) in (0, len(Ls))
+    P.l_list, P.l_lips = (ls_odl or None), l_lips
     if Ls:
         Lstack = np.vstack(Lmats)
         wy = np.concatenate(wys)
@@ -1147,6 +1157,16 @@ FAMS = {
     # depend on their step (accelerated pdhg on either side)
     'ridge': dict(X=['rn3', 'rn3wa'], f=('l2sq', 0.5), absorb='f_shift',
                   blocks=[('l2sq', 1.0, 'M', 'pat')], xv=XV, solvers=PD4),
+    # infimal convolutions (g_i box l_i)(L_i x), l_i = 1/2||.||^2 (the Huber-type envelope of the
+    # L1 norm), passed to the solvers through their `l` keyword
+    'env_tv': dict(X=['rn3', 'rn3w2'], f=('l2sq', 0.5), absorb='f_shift',
+                   blocks=[('l1', 1.0, 'D', 'nat', 0.5)], xv=XV, solvers=[FBPD, DR]),
+    'env_two': dict(X=['rn3'], f=('l2sq', 0.5), absorb='f_shift',
+                    blocks=[('l1', 1.0, 'D', 'nat', 0.5), ('l1', 0.5, 'I', 'pat', 0.5)], xv=XV,
+                    solvers=[FBPD, DR]),
+    # the same as three-term problem: box constraint + envelope + smooth 1/2||x-a||^2
+    'env_h': dict(X=['rn3'], f=('box', -1.0, 2.0), absorb='h_shift', h=('l2sq', 0.5),
+                  blocks=[('l1', 1.0, 'D', 'nat', 0.5)], xv=XV, solvers=[FBPD]),
     # lasso with the data term behind the operator: ||x||_1 + ||Mx - b||^2
     'lasso_g': dict(X=['rn3', 'rn3wa'], f=('l1', 1.0), absorb='g_data',
                     blocks=[('l2sq', 1.0, 'M', 'data')], xv=XV, solvers=PD4),
@@ -1300,6 +1320,29 @@ def _grids(solver, P, tier):
             out.append({'tau': 1.0 / s1, 'sigma': None, 'lam': 1.0, 'tag': 'tau-only'})
             out.append({'tau': None, 'sigma': [1.0 / nr for nr in P.norms], 'lam': 1.0,
                         'tag': 'sigma-only'})
+    elif solver == FBPD and P.l_list:
+        # with the l_i terms: dual steps sigma != 1 on purpose; tau from tau*sum(sigma|L|^2) = p,
+        # then shrunk until the step condition holds under EVERY reading of the docstring / of
+        # [BC2015]: constants eta = 1/Lip(grad h), nu_i in {Lip(grad l_i^*), 1/Lip(grad l_i^*)},
+        # factor min(sqrt(1-p), 1-sqrt(p))
+        s2 = sum(nr ** 2 for nr in P.norms)
+        m = len(P.norms)
+        consts = [c for lp in P.l_lips for c in (lp, 1.0 / lp)]
+        if P.lip_h > 0:
+            consts.append(1.0 / P.lip_h)
+        for sig, p in [(0.5, 0.5), (1.25, 0.09)][:2]:
+            tau = p / (sig * s2)
+            for _ in range(40):
+                pp = tau * sig * s2
+                cond = 2.0 * min(1.0 / tau, 1.0 / sig) * min(consts) * \
+                    min(np.sqrt(1.0 - pp), 1.0 - np.sqrt(pp))
+                if cond > 1.05:
+                    break
+                tau *= 0.8
+            else:
+                continue
+            out.append({'tau': tau, 'sigma': [sig] * m,
+                        'tag': 'with-l,sigma=%s,tau*sum(sigma|L|^2)=%.3g' % (sig, pp)})
     elif solver == FBPD:
         beta = P.lip_h
         m = len(P.norms)
@@ -1327,7 +1370,13 @@ def _grids(solver, P, tier):
             out.append({'tau': np.sqrt(p * rho) / nrm, 'sigma': nrm / np.sqrt(p / rho),
                         'tag': 'tau|L|^2/sigma=%s,tau*sigma=%s' % (p, rho)})
     elif solver == PG:
-        for c, lam in [(1.0, 1.0), (1.9, 1.0), (0.5, 1.0), (1.0, 0.5)][:4 if thorough else 2]:
+        # relaxation lam: constants and callables; admissible in the sense of the averaged-
+        # operator theory behind the docstring (sum lam_k (delta - lam_k) = inf with
+        # delta = min{1, beta/gamma} + 1/2; for gamma <= beta every lam_k in [eps, 3/2 - eps]).
+        # 'harmonic' (1/(k+1)) is admissible but too slow for a horizon: fixed point only.
+        grid = [(1.0, 1.0), (1.9, 1.0), (1.0, 0.5), (1.0, 1.25), (1.0, 'decay'), (1.0, 'harmonic'),
+                (0.5, 1.0), (0.5, 1.25), (1.9, 0.5)]
+        for c, lam in grid[:9 if thorough else 6]:
             out.append({'gamma': c / P.lip_h, 'lam': lam, 'tag': 'gamma*Lip=%s,lam=%s' % (c, lam)})
     elif solver == APG:
         for c in [1.0, 0.5][:2 if thorough else 1]:
@@ -1345,18 +1394,26 @@ def _call_ns(solver, P, st, x, niter, cb, inject=None):
         return odl.solvers.pdhg(x, P.f, g, L, niter, tau=st['tau'], sigma=st['sigma'],
                                 callback=cb, **kw)
     if solver == DR:
+        kw = {'l': P.l_list} if P.l_list else {}
         return odl.solvers.douglas_rachford_pd(x, P.f, P.g_list, P.L_list, niter, tau=st['tau'],
-                                               sigma=st['sigma'], callback=cb, lam=st['lam'])
+                                               sigma=st['sigma'], callback=cb, lam=st['lam'],
+                                               **kw)
     if solver == FBPD:
+        kw = {'l': P.l_list} if P.l_list else {}
         return odl.solvers.forward_backward_pd(x, P.f, P.g_list, P.L_list, _zero_h(P), st['tau'],
-                                               st['sigma'], niter, callback=cb)
+                                               st['sigma'], niter, callback=cb, **kw)
     if solver == ADMM:
         g, L = _combined(P)
         return odl.solvers.admm_linearized(x, P.f, g, L, st['tau'], st['sigma'], niter,
                                            callback=cb)
     if solver == PG:
+        lam = st['lam']
+        if lam == 'decay':
+            lam = lambda k: 0.5 + 0.5 / (k + 1)
+        elif lam == 'harmonic':
+            lam = lambda k: 1.0 / (k + 1)
         return odl.solvers.proximal_gradient(x, P.f, P.h, st['gamma'], niter, callback=cb,
-                                             lam=st['lam'])
+                                             lam=lam)
     if solver == APG:
         return odl.solvers.accelerated_proximal_gradient(x, P.f, P.h, st['gamma'], niter,
                                                          callback=cb)
@@ -1504,6 +1561,8 @@ def run_ns(cfg):
                 continue
             if cfg['pat'] == 'z' and not fam.get('zero_dual_only'):
                 continue      # the zero-dual variants exist for the fixed-point clause
+            if st.get('lam') == 'harmonic':
+                continue
             if accel and not st['acc_live']:
                 # accelerated pdhg is O(1/N) in |x_N - x*| in general (1e-3 after ~1500
                 # iterations on ROF / KL members): no horizon with a margin exists, so bounded
